@@ -87,8 +87,11 @@ theorem connect_core {c : Ctx} {s : Store} {chain rest : List Block} {b : Block}
       rw [h3] at h2; exact h2
     · simp only [he, Bool.false_eq_true, if_false, s1]
       rw [get_mergeBalances, hB w hw]
-  obtain ⟨s2, hp, hsync2, hst2, hs2eq⟩ := putSyncedTo_snoc (s := s1) (chain := chain) (b := b)
-    (by intro h; rw [hst1.2.1]; exact hsync h) hlen hheight
+  -- the conflict purge through the irrelevant transactions only touches pending buckets
+  have hM1 : MinedEq s1 (purgeUnrelated c.own s1 (unrelatedTxs b.txs recs)) := minedEq_purgeUnrelated _ _ _
+  obtain ⟨s2, hp, hsync2, hst2, hs2eq⟩ := putSyncedTo_snoc
+    (s := purgeUnrelated c.own s1 (unrelatedTxs b.txs recs)) (chain := chain) (b := b)
+    (by intro h; rw [hM1.sync, hst1.2.1]; exact hsync h) hlen hheight
   refine ⟨s2, recs.map (·.tx.id), ?_, ?_, ?_, hsync2, hst2, ?_⟩
   · unfold filterBlock
     simp only [blockAt_of_node hnode hheight, ne_eq, not_true_eq_false, if_false, hne, Bool.false_eq_true]
@@ -97,11 +100,16 @@ theorem connect_core {c : Ctx} {s : Store} {chain rest : List Block} {b : Block}
     rw [h1]
     simp only [M_ok_bind]
     rw [hp]; rfl
-  · rw [hs2eq]
-    exact ⟨hR1.unspent, hR1.credits, hR1.debits, hR1.game, hR1.txrecs, hR1.blocks, hR1.addrs⟩
+  · have hR1' := hM1.agree hR1
+    rw [hs2eq]
+    exact ⟨hR1'.unspent, hR1'.credits, hR1'.debits, hR1'.game, hR1'.txrecs, hR1'.blocks, hR1'.addrs⟩
   · intro w hw
-    rw [hs2eq]; exact hbal1 w hw
-  · rw [hs2eq]; exact hst1.1
+    rw [hs2eq]
+    show AMap.get (purgeUnrelated c.own s1 (unrelatedTxs b.txs recs)).balance w = _
+    rw [hM1.balance]; exact hbal1 w hw
+  · rw [hs2eq]
+    show (purgeUnrelated c.own s1 (unrelatedTxs b.txs recs)).status = _
+    rw [hM1.status]; exact hst1.1
 
 /-- connect_sound: filterBlock on the next block of the node's chain succeeds and yields the invariant
     for the longer chain -/
